@@ -269,15 +269,25 @@ def strat_calls(draw, tier):
         elif special == "inf":
             u[draw(st.integers(0, d - 1))] = INF * draw(st.sampled_from([-1, 1]))
         calls.append(u)
-    return {"copula": draw(strat_cop()), "calls": calls, "conditional": draw(st.booleans())}
+    # theta and eta are assignable (validated descriptors): a third of the histories re-assign them between calls
+    updates = {}
+    if draw(st.integers(0, 2)) == 0:
+        for i in range(1, len(calls)):
+            if draw(st.booleans()):
+                updates[str(i)] = {"theta": draw(_f(0.2, 5.0)), "eta": draw(_f(0.0, 1.0))}
+    return {"copula": draw(strat_cop()), "calls": calls, "conditional": draw(st.booleans()), "updates": updates}
 
 
 def body_calls(case):
     """a copula object is a function of its argument vector only (the classes take no dimension): the value of a call
     does not depend on the calls - possibly in another dimension - made before on the same object"""
-    cspec = case["copula"]
+    cspec = dict(case["copula"])
     shared = build_copula(cspec)
     for i, u in enumerate(case["calls"]):
+        upd = case.get("updates", {}).get(str(i))
+        if upd and cspec["type"] == "clayton":
+            shared.theta, shared.eta = upd["theta"], upd["eta"]
+            cspec = {"type": "clayton", "theta": upd["theta"], "eta": upd["eta"]}
         arr = np.array(u, dtype=float)
         given = arr.copy()
         got = float(shared(given))
@@ -293,7 +303,8 @@ def body_calls(case):
 
 def classify_calls(case):
     dims = sorted({len(u) for u in case["calls"]})
-    return [case["copula"]["type"], "dims=" + "".join(map(str, dims))], len(dims) >= 2
+    return [case["copula"]["type"], "dims=" + "".join(map(str, dims)),
+            "parameters-reassigned" if case.get("updates") else "parameters-fixed"], len(dims) >= 2 or bool(case.get("updates"))
 
 
 SUBCHECKS = [
